@@ -276,6 +276,47 @@ impl C12 {
                 return;
             }
         }
+        // the IpHeaders wrapper walks and writes the same chain from the base header's next_header
+        {
+            let mut base = Ipv6Header::default();
+            base.next_header = IpNumber(c.first);
+            let ih = IpHeaders::Ipv6(base, exts.clone());
+            let r = shell::guarded(|| {
+                let mut o: Vec<u8> = Vec::new();
+                let w = ih.write(&mut o).map_err(|e| format!("{:?}", e));
+                (ih.next_header(), w, o)
+            });
+            match r {
+                Ok((iw, iwr, o)) => {
+                    let same = match (&iw, &walk) {
+                        (Ok(a), Ok(b)) => a == b,
+                        (Err(err::ip_exts::ExtsWalkError::Ipv6Exts(a)), Err(b)) => a == b,
+                        _ => false,
+                    };
+                    if !same {
+                        rep.violation(
+                            "wrapper|IpHeaders::next_header|differs_from_exts_walk",
+                            format!("{}: IpHeaders::next_header() -> {:?} but Ipv6Extensions::next_header({}) -> {:?}", ctx, iw, c.first, walk),
+                            &[],
+                        );
+                        return;
+                    }
+                    if iwr.is_ok() != walk_ok || (iwr.is_ok() && o.len() != 40 + hlen) {
+                        rep.violation(
+                            "wrapper|IpHeaders::write|differs_from_walk",
+                            format!("{}: IpHeaders::write -> {:?} ({} bytes) but the walk gives {:?}", ctx, iwr, o.len(), walk),
+                            &o,
+                        );
+                        return;
+                    }
+                    rep.count("wrappers.ipv6_walk_and_write_agree");
+                }
+                Err(p) => {
+                    rep.violation(&format!("panic|IpHeaders|{}", p.location()), format!("{}: {}", ctx, p.0), &[]);
+                    return;
+                }
+            }
+        }
         // write succeeds exactly when walking succeeds
         if w.is_ok() != walk_ok {
             rep.violation(
@@ -500,6 +541,23 @@ impl C12 {
                 } else if w.is_ok() && out.len() != hlen {
                     rep.violation("ipv4|written_len", format!("{}: wrote {} vs header_len {}", ctx, out.len(), hlen), &out);
                 } else {
+                    // the wrapper starts from the header's protocol field
+                    let ih = IpHeaders::Ipv4(Ipv4Header::new(0, 64, IpNumber(first), [1, 2, 3, 4], [5, 6, 7, 8]).unwrap(), e4.clone());
+                    let iw = ih.next_header();
+                    let same = match (&iw, &walk) {
+                        (Ok(a), Ok(b)) => a == b,
+                        (Err(err::ip_exts::ExtsWalkError::Ipv4Exts(a)), Err(b)) => a == b,
+                        _ => false,
+                    };
+                    let mut o = Vec::new();
+                    let iwr = ih.write(&mut o);
+                    if !same {
+                        rep.violation("wrapper|IpHeaders::next_header|differs_from_exts_walk", format!("{}: IpHeaders::next_header() -> {:?} but Ipv4Extensions::next_header -> {:?}", ctx, iw, walk), &[]);
+                    } else if iwr.is_ok() != walk.is_ok() {
+                        rep.violation("wrapper|IpHeaders::write|differs_from_walk", format!("{}: IpHeaders::write -> {:?} but the walk gives {:?}", ctx, iwr.map_err(|e| format!("{:?}", e)), walk), &o);
+                    } else {
+                        rep.count("wrappers.ipv4_walk_and_write_agree");
+                    }
                     if w.is_ok() && !EXT_NUMBERS.contains(&expect_last) {
                         match Ipv4Extensions::from_slice(IpNumber(first), &out) {
                             Ok((d, last, rest)) if d == e4 && last.0 == expect_last && rest.is_empty() => rep.count("ipv4.decoded_same"),
@@ -578,11 +636,13 @@ impl Monitor for C12 {
             ("random", tier.pick(300_000, 4_000_000)),
             ("set_next_headers", tier.pick(48 * 256 * 4, 48 * 256 * 40)),
             ("ipv4_wrappers", tier.pick(128 * 40, 128 * 400)),
+            ("api", tier.pick(2_000, 20_000)),
         ]
     }
 
     fn run_case(&mut self, engine: &str, idx: u64, rng: &mut Prng, rep: &mut Report) {
         match engine {
+            "api" => super::api::c12(rep, rng),
             "exhaustive" => match conf_from_idx(idx) {
                 Some(c) => {
                     rep.count("exhaustive.configurations");
